@@ -479,15 +479,40 @@ impl StateStore {
         count
     }
 
+    /// Is this checkpoint id already taken (listed, or present on disk for the file backend)?
+    fn checkpoint_id_in_use(&self, checkpoint_id: &str) -> bool {
+        if self
+            .checkpoints
+            .read()
+            .unwrap()
+            .iter()
+            .any(|c| c.id == checkpoint_id)
+        {
+            return true;
+        }
+        match &self.config.backend {
+            StateBackend::File { path } => path.join(checkpoint_id).exists(),
+            _ => false,
+        }
+    }
+
     /// Create a checkpoint of current state
     pub fn checkpoint(&mut self, name: impl Into<String>) -> StateResult<String> {
-        let checkpoint_id = format!(
-            "checkpoint_{}",
-            SystemTime::now()
-                .duration_since(UNIX_EPOCH)
-                .unwrap()
-                .as_millis()
-        );
+        let now_ms = SystemTime::now()
+            .duration_since(UNIX_EPOCH)
+            .unwrap()
+            .as_millis() as u64;
+
+        // The id is derived from the clock; two checkpoints taken within the same
+        // millisecond (or one taken after a restart that finds an older directory of
+        // that millisecond) must not share an id, or the later one would overwrite
+        // the earlier one's files.
+        let mut checkpoint_id = format!("checkpoint_{}", now_ms);
+        let mut sequence = 0u64;
+        while self.checkpoint_id_in_use(&checkpoint_id) {
+            sequence += 1;
+            checkpoint_id = format!("checkpoint_{}_{}", now_ms, sequence);
+        }
 
         let state = self.state.read().unwrap();
         let snapshot: HashMap<String, Value> = state
